@@ -310,7 +310,10 @@ class World:
         name = op['name']
         if a.fmt[1] + 4 > 52:
             return
-        if op.get('out') and name in ('sum', 'max', 'min'):
+        if name == 'fxp_sum':
+            import fxpmath
+            z = fxpmath.fxp_sum(a.x)          # the legacy exported sum helper
+        elif op.get('out') and name in ('sum', 'max', 'min'):
             F = C.Fxp()
             T = F(None, a.fmt[0], a.fmt[1] + 4, a.fmt[2])
             z = getattr(np, name)(a.x, out=T) if op.get('numpy') else getattr(a.x, name)(out=T)
@@ -563,7 +566,7 @@ def op_strategies():
                                         'how': st.sampled_from(['operator', 'operator', 'function', 'out', 'out_like', 'numpy-out', 'config-out'])}),
         'arith_const': st.fixed_dictionaries({'i': st.integers(0, 7), 'name': st.sampled_from(['add', 'sub', 'mul']), 'c': st.sampled_from([1, 2, -1, 0.5, 3]),
                                               'numpy': st.booleans()}),
-        'func': st.fixed_dictionaries({'i': st.integers(0, 7), 'name': st.sampled_from(['sum', 'cumsum', 'max', 'min']), 'numpy': st.booleans(),
+        'func': st.fixed_dictionaries({'i': st.integers(0, 7), 'name': st.sampled_from(['sum', 'cumsum', 'max', 'min', 'fxp_sum']), 'numpy': st.booleans(),
                                        'out': st.booleans()}),
         'derive': st.fixed_dictionaries({'i': st.integers(0, 7), 'like': st.booleans()}),
         'unary': st.fixed_dictionaries({'i': st.integers(0, 7), 'name': st.sampled_from(['neg', 'pos', 'abs'])}),
